@@ -243,6 +243,50 @@ def r06_4(ck, F):
               "a failed remote send is not published to the local senders", b.loc(0))
 
 
+def r06_5(ck, F):
+    ck.rule("R06.5", "typed translation on the receiving side: in mpsc::recv_impl and watch::recv_impl every Err outcome of "
+            "remote_rx.recv() is wrapped into RecvError::RemoteReceive and handed to the local channel (tx.send) before the "
+            "loop continues or ends; the task ends after that hand-over exactly when the error is_final(), and not for a "
+            "non-final (item-level) error",
+            "connection cut while an mpsc / watch receiver is idle: the forwarding task ends without queueing the error and "
+            "the local receiver sees a plain end-of-stream (or, for watch, an unchanged value) instead of a failure; or a "
+            "non-final item error ends the channel and loses the following items", floor=6)
+    for fn, send_callee in (("rch::mpsc::recv_impl", "tokio::sync::mpsc::Sender::send"),
+                            ("rch::watch::recv_impl", "tokio::sync::watch::Sender::send")):
+        b = F.main_body(fn)
+        short = fn.split("::")[-2] + "::recv_impl"
+        arm = sel = None
+        for s_ in select_info(b):
+            for a in s_["arms"].values():
+                if (a["fut"] or "").endswith("base::receiver::Receiver::recv"):
+                    arm, sel = a, s_
+        if arm is None:
+            raise mir.AnchorMissing(f"remote_rx.recv() branch of the select in {fn}")
+        poll = sel["poll_bb"]
+        region = b.reach([arm["target"]], avoid=[poll])
+        errs = [tb for sb, tb, m, e in switch_edges(b, lambda e: e[0] == "discr" and "@Ok" not in mir.show(e), region)
+                if m == "Err" and e[1][0] == "proj" and e[1][2] and e[1][2][0].startswith("@_")]
+        sends = {bb for bb, t in b.calls(send_callee) if bb in region}
+        if not errs or not sends:
+            raise mir.AnchorMissing(f"Err outcome / local send in the receive branch of {fn}")
+        p = b.find_path(errs, [poll] + list(b.returns()), avoid=sends)
+        ck.expect(p is None, f"{short}#error-delivered", "every path from the Err outcome passes the local tx.send",
+                  f"{fn}: a receive error can end the iteration without being handed to the local channel", b.loc(errs[0]),
+                  {"path": [b.loc(x) for x in (p or [])][:12]})
+        wrapped = [bb for bb, i, rv in b.aggregates() if rv.get("variant") == "RemoteReceive" and bb in b.reach(errs, avoid=sends)]
+        ck.expect(bool(wrapped), f"{short}#error-wrapped", "the error is wrapped into RecvError::RemoteReceive on that path",
+                  f"{fn}: the receive error is not wrapped into RecvError::RemoteReceive before the hand-over", b.loc(errs[0]))
+        # is_final decides whether the task ends after the hand-over
+        after = b.reach(list(sends), avoid=[poll], include_start=False)
+        fin = [(sb, tb, m) for sb, tb, m, e in switch_edges(b, lambda e: bool([c for c in mir.calls_in(e) if c[1].endswith("::is_final")]), after)]
+        ends = [tb for sb, tb, m in fin if m is True and poll not in b.reach([tb], avoid=[sb])]
+        goes_on = [tb for sb, tb, m in fin if m is False and poll in b.reach([tb], avoid=[sb])]
+        ck.expect(bool(ends) and bool(goes_on), f"{short}#final-ends-task",
+                  "after the hand-over the task ends iff the error is final",
+                  f"{fn}: after handing over a receive error the task does not end exactly for final errors "
+                  f"(ends on final: {bool(ends)}, continues on non-final: {bool(goes_on)})", b.loc(min(sends)))
+
+
 def run(ck, F):
-    for r in (r06_1, r06_2, r06_3, r06_3b, r06_4):
+    for r in (r06_1, r06_2, r06_3, r06_3b, r06_4, r06_5):
         ck.run_rule(r)
